@@ -114,6 +114,9 @@ def gen_history(rnd):
             lo[out] = list(lo_i)
         if len(time) > 1 and rnd.random() < 0.4:
             rnd.shuffle(time)         # the time LIST may be in any order; the loop order rules
+        if len(space) > 1 and rnd.random() < 0.4:
+            space = list(space)
+            rnd.shuffle(space)        # the space LIST may be in any order too
         st[out] = {"space": list(space), "time": time}
         b += ["  %s:" % out, "  - config: cfg%d" % cur, "    prefix: tmp/%s" % out]
         names = comp_names[cur]
